@@ -470,7 +470,7 @@ def run(ctx):
                "and is not decided")
 
 
-RAW_OK = ("deref", "as_slice", "as_ref", "borrow", "as_bytes", "index", "deref_mut", "as_mut_slice")
+RAW_OK = ("deref", "as_slice", "as_ref", "borrow", "as_bytes", "index", "deref_mut", "as_mut_slice", "ok")
 
 
 def rawinput(ctx):
@@ -492,7 +492,7 @@ def rawinput(ctx):
             chain = []
             cur = t["args"][0]
             src = None
-            for _ in range(12):
+            for _ in range(30):
                 o = fa.origin(cur)
                 if o[0] == "call" and sorted(_names(o[2]))[0] in ("new", "with_capacity", "default") \
                         and "Vec" in " ".join(_paths(o[2])):
@@ -525,9 +525,29 @@ def rawinput(ctx):
                     continue
                 if o[0] == "arg":
                     src = "parameter %d" % o[1]
+                elif o[0] == "place" and o[1].root[0] == "call" and len(chain) < 24 and \
+                        sorted(_names(fa.term(o[1].root[1])))[0] in ("branch", "unwrap", "expect") and \
+                        fa.term(o[1].root[1])["args"]:
+                    # payload of `?` / unwrap on a Result: go on with the Result
+                    chain.append("ok")
+                    cur = fa.term(o[1].root[1])["args"][0]
+                    continue
                 elif o[0] == "place" and o[1].root[0] == "local":
-                    # a local buffer: it must be filled by read_to_end only
                     l = o[1].root[1]
+                    # the value a helper returned (after expansion: several assignments, one per
+                    # return path): follow the `Ok(x)` / plain-move definitions
+                    nxt = None
+                    for (db, di, dk, dp) in fa.defs().get(l, []):
+                        if dk == "assign" and dp["k"] == "agg" and dp.get("variant") == "Ok" and dp["ops"]:
+                            nxt = dp["ops"][0]
+                        elif dk == "assign" and dp["k"] == "use" and op_place(dp["op"]) is not None \
+                                and not op_place(dp["op"])["p"] and len(fa.defs().get(l, [])) > 1:
+                            nxt = dp["op"]
+                    if nxt is not None and len(chain) < 24:
+                        chain.append("ok")
+                        cur = nxt
+                        continue
+                    # a local buffer: it must be filled by read_to_end only
                     fills = []
                     for cb, ct in fa.calls():
                         for a in ct["args"]:
